@@ -46,6 +46,7 @@ def strategy(tier):
 def oracle(program, aux):
     shim.install('UTC')
     failures = []
+    shim.set_tick(len(program['ops']) % 2 == 1)      # a moving clock in half of the cases (nothing here compares bytes across runs)
     run = Run(program)
     run.run_all()
     run.stats = {'c01_domain': 0}
